@@ -927,7 +927,12 @@ func checkC09(c *Ctx, r *Report) {
 				vals := retVals(ret)
 				ev := vals[len(vals)-1]
 				if isNilConst(ev) {
-					// e.g. the miss path continues to a successful fetch
+					// e.g. the miss path continues to a successful fetch. Not so after a failed store: the store was
+					// handed the origin's body, which may be (partly) consumed whatever the error says, so reporting
+					// success there makes the caller relay a drained body.
+					if method == "Cache" {
+						bad = append(bad, "return at "+c.InstrPos(ret)+" reports success after a failed store (the response body was handed to the store and may be consumed: the client gets the headers and a truncated body)")
+					}
 					continue
 				}
 				// acceptable: carries ErrNotCacheable
